@@ -50,6 +50,7 @@ fn main() {
     let code = match id.as_str() {
         "C03" => run_property(props::c03_certs::C03, run_args),
         "C04" => run_property(props::c04_admission::C04, run_args),
+        "C06" => run_property(props::c06_safe_to::C06, run_args),
         "C15" => run_property(props::c15_merkle::C15, run_args),
         _ => {
             eprintln!("unknown property id {id}");
